@@ -86,6 +86,20 @@ type (
 
 // Validate implements custom validation for Spec
 func (spec Spec) Validate() error {
+	for _, p := range spec.Policies {
+		// the limiter divides by the refresh period.
+		if d := p.LimitRefreshPeriod; d != "" {
+			if v, err := time.ParseDuration(d); err != nil || v <= 0 {
+				return fmt.Errorf("policy '%s': limitRefreshPeriod must be positive", p.Name)
+			}
+		}
+		if d := p.TimeoutDuration; d != "" {
+			if v, err := time.ParseDuration(d); err != nil || v < 0 {
+				return fmt.Errorf("policy '%s': timeoutDuration must not be negative", p.Name)
+			}
+		}
+	}
+
 URLLoop:
 	for _, u := range spec.URLs {
 		name := u.PolicyRef
